@@ -602,13 +602,13 @@ Proof.
     destruct (pipeline_model doc st) as [r| |k p|k] eqn:E; try contradiction.
     - destruct (pipeline_wf_partial doc st r Hst E) as [A B]. rewrite Hp in A, B.
       split; [exact A|]. split; [exact B|]. rewrite <- Hfe. apply data_presence_b_iff. apply Hc.
-    - destruct Hc as (_ & _ & _ & _ & Hf). intro Hnil. rewrite Hnil in Hf. discriminate. }
+    - destruct Hc as (_ & _ & _ & _ & _ & Hf). intro Hnil. rewrite Hnil in Hf. discriminate. }
   unfold pipeline_exec.
   destruct (front_early fr) eqn:Hearly.
   - (* parse or validation failed *)
-    set (st0 := Stages (fr_parse fr) (fr_validation fr) None [] [] no_exec).
+    set (st0 := Stages (fr_parse fr) (fr_validation fr) None [] [] [] no_exec).
     assert (Hst : stages_wf_b doc st0 = true).
-    { unfold stages_wf_b, st0; cbn [st_validation st_varcoercion st_exec no_exec fst snd forallb strict_json].
+    { unfold stages_wf_b, st0; cbn [st_validation st_varcoercion st_rootcoercion st_exec no_exec fst snd forallb strict_json].
       rewrite V1, V2; reflexivity. }
     assert (Hfe : failed_early st0 = true) by exact Hearly.
     specialize (Hgen st0 Hst Hfe eq_refl).
@@ -630,20 +630,23 @@ Proof.
       rewrite Hp in Hgen. specialize (Hgen Hsp). rewrite Hp.
       destruct (pipeline_model doc st); try exact Hgen. apply Hgen. exact Hfl. }
     assert (Hvar : fr_varcoercion fr <> [] ->
-                   stages_wf_b doc (Stages None [] None (fr_varcoercion fr) [] no_exec) = true).
-    { intros _. unfold stages_wf_b; cbn [st_validation st_varcoercion st_exec no_exec fst snd forallb strict_json].
+                   stages_wf_b doc (Stages None [] None (fr_varcoercion fr) [] [] no_exec) = true).
+    { intros _. unfold stages_wf_b; cbn [st_validation st_varcoercion st_rootcoercion st_exec no_exec fst snd forallb strict_json].
       rewrite C1, C2. reflexivity. }
     destruct (execute sch coerce_args world tyres cfuel fuel d opname vs root) as [[dd es]| |k p|k] eqn:Hex.
     + destruct (fr_varcoercion fr) as [|c cs] eqn:Hv.
       * pose proof (execute_in_text _ _ _ _ _ _ _ _ _ _ _ _ _ Hdoc Hex) as Hin.
         destruct (conv_errs_ok doc es Hin) as (A & B & _).
         fin_stage Hstage.
-        unfold stages_wf_b; cbn [st_validation st_varcoercion st_exec fst snd forallb].
+        unfold stages_wf_b; cbn [st_validation st_varcoercion st_rootcoercion st_exec fst snd forallb].
         rewrite A, B, pv_strict. reflexivity.
       * fin_stage Hstage. apply Hvar. discriminate.
     + destruct (fr_varcoercion fr) as [|c cs] eqn:Hv; [auto|].
       fin_stage Hstage. apply Hvar. discriminate.
-    + fin_stage Hstage. reflexivity.
+    + destruct (p =? REJ_OPERATION); [fin_stage Hstage; reflexivity|].
+      destruct (fr_varcoercion fr) as [|c cs] eqn:Hv.
+      * fin_stage Hstage. reflexivity.
+      * fin_stage Hstage. apply Hvar. discriminate.
     + destruct (fr_varcoercion fr) as [|c cs] eqn:Hv; [auto|].
       fin_stage Hstage. apply Hvar. discriminate.
 Qed.
